@@ -12,6 +12,7 @@ mod c05;
 mod c06;
 mod c07;
 mod c08;
+mod c09;
 mod c19;
 mod prog;
 
@@ -113,6 +114,7 @@ fn main() {
         "c06" => c06::run(&ctx),
         "c07" => c07::run(&ctx),
         "c08" => c08::run(&ctx),
+        "c09" => c09::run(&ctx),
         "c19" => c19::run(&ctx),
         "c19dump" => c19::dump(&ctx),
         _ => {
@@ -131,6 +133,7 @@ fn roles(args: &[String]) -> i32 {
         Some("c04-relay") => c04::role_relay(&args[1..]),
         Some("c05-reader") => c05::role_reader(&args[1..]),
         Some("c08-client") => c08::role_client(&args[1..]),
+        Some("c09-sender") => c09::role_sender(&args[1..]),
         Some("lsfd") => {
             // unrelated child: print inherited descriptors
             for (fd, t) in util::fd_table() {
